@@ -27,7 +27,6 @@ fn codec_roundtrip() {
     let r = k::decode_7bit(&mut rd);
     assert!(matches!(&r, Ok(x) if *x == v), "C15: every integer the exporter writes is accepted by the importer: decode_7bit(encode_7bit(v)) == v");
     assert!(rd.is_empty(), "C15: the reader consumes exactly the bytes of one encoded integer");
-    kani::cover!(n == 20, "all ten groups escaped? (not possible) or long encodings");
     kani::cover!(n >= 11, "encoding with escapes and ten groups");
     kani::cover!(v == 0x0a, "value needing an escape");
     std::mem::forget(r);
